@@ -29,6 +29,20 @@ Definition env_of (f : flags) : state :=
      (v_r_HostName, [1; 1; 1; 1]); (v_r_DomainName, [1; 1; 1])]
     [(v_r_Mounts, []); (v_r_RLimits, [])].
 
+(** fields of the caller's structures that the specification does not know of (none on the pinned tree): a launch must
+    not depend on them; the checks on call sequences are evaluated a second time with all of them set *)
+Definition dotted (s : string) : bool :=
+  (fix go (s : string) : bool := match s with EmptyString => false | String c r => Ascii.eqb c (Ascii.ascii_of_nat 46) || go r end) s.
+Definition known_fields : list N :=
+  [v_r_CloneFlags; v_r_ExecFile; v_r_SyncFunc; v_r_StopBeforeSeccomp; v_r_Seccomp; v_r_Ptrace; v_r_CgroupFd; v_r_Credential;
+   v_r_UnshareCgroupAfterSync; v_r_GIDMappings; v_r_GIDMappingsEnableSetgroups; v_cred_NoSetGroups; v_cred_Gid; v_cred_Uid; v_cred_Groups;
+   v_r_CTTY; v_r_NoNewPrivs; v_r_DropCaps; v_r_Files; v_r_HostName; v_r_DomainName; v_r_Mounts; v_r_RLimits;
+   v_m_Prefixes; v_m_MakeNod; v_m_Flags; v_s_Flags; v_rlim_Res].
+Definition unknown_fields : list (N * Z) :=
+  flat_map (fun p => if dotted (snd p) && negb (existsb (N.eqb (fst p)) known_fields) then [(fst p, 1)] else []) var_names.
+Definition adversarial (s : state) : state :=
+  {| vars := vars s ++ unknown_fields; arrs := arrs s; sarrs := sarrs s; ncalls := ncalls s; trace := trace s |}.
+
 (** ** the kernel *)
 Definition the_ppid := 999.
 Definition ok_orc : oracle := fun n nr args =>
@@ -148,10 +162,30 @@ Definition k05 (c : xcall) : bool :=
 (** C07: the rest: the start of the child, the exchange over the sync socket, the exec *)
 Definition k07 (c : xcall) : bool := negb (k04 c || k16 c || k05 c).
 
+(** one run (and one with the adversarial environment) serves all four parts *)
+Definition calls_seen (s : state) : bool * list xcall :=
+  let '(sg, pre, post) := run_src ok_orc s in (is_exited sg, (ocalls pre ++ ocalls post)%list).
+Definition check_calls_with (keep : xcall -> bool) (f : flags) (r : bool * list xcall) : bool :=
+  fst r && list_eqb xcall_eqb (filter keep (snd r)) (filter keep (ocalls (pre_spec f) ++ calls_of f)).
 Definition check_calls_on (keep : xcall -> bool) (f : flags) : bool :=
-  let '(sg, pre, post) := run_src ok_orc (env_of f) in
-  is_exited sg &&
-  list_eqb xcall_eqb (filter keep (ocalls pre ++ ocalls post)) (filter keep (ocalls (pre_spec f) ++ calls_of f)).
+  check_calls_with keep f (calls_seen (env_of f)) && check_calls_with keep f (calls_seen (adversarial (env_of f))).
+Definition parts : list (xcall -> bool) := [k04; k05; k16; k07].
+Definition check_calls_all_r (f : flags) (r1 r2 : bool * list xcall) : bool :=
+  forallb (fun keep => check_calls_with keep f r1 && check_calls_with keep f r2) parts.
+Lemma check_calls_all_r_spec f r1 r2 : check_calls_all_r f r1 r2 = true ->
+  forall keep, In keep parts -> check_calls_with keep f r1 && check_calls_with keep f r2 = true.
+Proof. intros H. exact (proj1 (forallb_forall _ _) H). Qed.
+Definition check_calls_all (f : flags) : bool :=
+  check_calls_all_r f (calls_seen (env_of f)) (calls_seen (adversarial (env_of f))).
+(* conversion must unfold the two wrappers and never start to evaluate a run on an unknown configuration *)
+Strategy expand [check_calls_all check_calls_on].
+Strategy opaque [calls_seen check_calls_all_r check_calls_with].
+Lemma check_calls_all_spec f : check_calls_all f = true -> forall keep, In keep parts -> check_calls_on keep f = true.
+Proof.
+  intros H keep Hk.
+  exact (check_calls_all_r_spec f (calls_seen (env_of f)) (calls_seen (adversarial (env_of f))) H keep Hk).
+Qed.
+Strategy transparent [calls_seen check_calls_all_r check_calls_with check_calls_all check_calls_on].
 
 (** T2: the k-th call of the child fails.  Either its result is not looked at (only where that is harmless) and the
     launch goes on as before, or the failure is reported over the sync socket with the location of the step, nothing
@@ -282,8 +316,8 @@ Definition shard_ok (c : flags -> bool) (B : list (list bool)) (pre : list bool)
 Record mshape := { ms_prefixes : nat; ms_makenod : bool; ms_flags : Z; ms_statfs : Z }.
 Definition elem_of_mount (m : mshape) : elem :=
   Elem [(v_m_MakeNod, b2z (ms_makenod m)); (v_m_Flags, ms_flags m)] [(v_m_Prefixes, repeat 1 (ms_prefixes m))] [].
-Definition env_loops (f : flags) (ms : list mshape) (nrl : nat) : state :=
-  let s := env_of f in
+Definition env_loops_adv (adv : bool) (f : flags) (ms : list mshape) (nrl : nat) : state :=
+  let s := if adv then adversarial (env_of f) else env_of f in
   {| vars := vars s; arrs := arrs s;
      sarrs := [(v_r_Mounts, map elem_of_mount ms); (v_r_RLimits, map (fun i => Elem [(v_rlim_Res, Z.of_nat i)] [] []) (seq 0 nrl))];
      ncalls := 0; trace := [] |}.
@@ -313,7 +347,8 @@ Fixpoint count_statfs_before (l : list xcall) (n : nat) : nat :=
   | S k, c :: r => (if Z.eqb (fst c) NR_statfs then 1 else 0)%nat + count_statfs_before r k
   end.
 
-Definition check_loops (f : flags) (ms : list mshape) (nrl : nat) : bool :=
+Definition check_loops_env (adv : bool) (f : flags) (ms : list mshape) (nrl : nat) : bool :=
+  let env_loops := env_loops_adv adv in
   let '(me, re) := loops_expected f ms nrl in
   let expected := child_calls_loops f (map fst me) (map fst re) in
   let sidx := fun n => count_statfs_before expected (n - n_pre) in
@@ -342,6 +377,9 @@ Definition check_loops (f : flags) (ms : list mshape) (nrl : nat) : bool :=
       | None => true
       end) (combine (seq 0 (List.length l)) l) in
   fails n_before me && fails (n_before + List.length me + n_mid)%nat re.
+
+Definition check_loops (f : flags) (ms : list mshape) (nrl : nat) : bool :=
+  check_loops_env false f ms nrl && check_loops_env true f ms nrl.
 
 Definition mount_shapes : list mshape :=
   flat_map (fun np => flat_map (fun mk => flat_map (fun fl => map (fun sf =>
